@@ -139,8 +139,14 @@ def rand_style(rng, classes=(), p_meta=0.3, allow_class=True):
     for flag in ('italics', 'bold', 'underline'):
         if rng.random() < 0.2:
             st[flag] = True
+        elif rng.random() < 0.04:
+            st[flag] = False          # explicitly switched off (e.g. by a more specific class)
     if allow_class and classes and rng.random() < 0.4:
         st['class'] = rng.choice(list(classes))
+        if len(classes) >= 2 and rng.random() < 0.4:
+            # several classes on one element, as the DFXP reader produces for style="a b"
+            st['classes'] = rng.sample(list(classes), 2)
+            st['class'] = ' '.join(st['classes'])
     return st
 
 
